@@ -27,8 +27,39 @@ class HarnessError(Exception):
     """The simulator itself failed (never a property violation)."""
 
 
+class LibraryHang(Exception):
+    """A simulated thread burnt wall-clock time inside the library without ever blocking or reading the
+    clock (an endless or super-linear loop): reported as a violation clause 'hang', not as a harness error."""
+
+    def __init__(self, thread, site):
+        Exception.__init__(self, '%s hangs in %s' % (thread, site))
+        self.thread = thread
+        self.site = site
+
+
+def _library_site(th):
+    """file:function of the innermost frame of thread th that lies in the library under test ('' if none)."""
+    import os
+    repo = os.path.realpath(os.environ.get('VERIF_REPO', '/repo'))
+    fr = sys._current_frames().get(th._real.ident) if th._real is not None else None
+    while fr is not None:
+        fn = os.path.realpath(fr.f_code.co_filename)
+        if fn.startswith(os.path.join(repo, 'j1939') + os.sep):
+            return '%s:%s' % (os.path.basename(fn), fr.f_code.co_name)
+        if '/j1939sim/' in fn:
+            return ''       # the innermost non-stdlib frame is the simulator itself
+        fr = fr.f_back
+    return ''
+
+
+def _async_kill(th):
+    import ctypes
+    if th._real is not None and th._real.ident is not None:
+        ctypes.pythonapi.PyThreadState_SetAsyncExc(ctypes.c_ulong(th._real.ident), ctypes.py_object(SimKilled))
+
+
 class Sim:
-    def __init__(self, seed, read_cost_ns=1000, lmax_ns=50_000, watchdog_s=30.0, keep_log=False):
+    def __init__(self, seed, read_cost_ns=1000, lmax_ns=50_000, watchdog_s=20.0, keep_log=False):
         global CURRENT
         self.rng = random.Random(seed)
         self.now = ORIGIN_NS
@@ -43,6 +74,7 @@ class Sim:
         self.killing = False
         self.spin_events = []       # (thread name, t_ns)
         self.livelocked = []        # thread names killed by the spin guard
+        self.hung = []              # (thread name, library site) killed by the wall-clock watchdog
         self.events_run = 0
         self.clock_reads = 0
         self._h = hashlib.sha256()
@@ -131,8 +163,17 @@ class Sim:
         self.log('run', th.name)
         th._go.release()
         if not self.baton.acquire(timeout=self.watchdog_s):
+            # the thread neither blocked nor read the clock for watchdog_s of wall time
+            site = _library_site(th)
+            _async_kill(th)
+            stopped = self.baton.acquire(timeout=10.0)
             self.current = None
-            th.dead = True
+            if not stopped:
+                th.dead = True
+            if site:
+                self.hung.append((th.name, site))
+                self.log('hang', th.name, site)
+                raise LibraryHang(th.name, site)
             raise HarnessError('non-yielding thread %s' % th.name)
         self.current = None
 
